@@ -1623,12 +1623,109 @@ func splitSegs(tf string) []string {
 	return append(segs, tf[start:])
 }
 
+// C09 also names Filter*/Map*/Keys/Values/Slice: at the end of a program (the live containers then have whatever growth history
+// the program gave them) every such result is derived from every live container and mutated through all the routes a result
+// offers - directly, through the value a fluent call returns, through Pop and tree-form writes, which go through the result's
+// own identity; no live container may change, and the result itself must change
+func (p *Prog) viewsOwnStorage() {
+	m := p.m
+	if try(func() {
+		before := canonEnv(m.vars, nil)
+		for _, r := range p.listRegs() {
+			l := m.list(r)
+			n := l.Count()
+			results := map[string]at.List{
+				"Filter":     l.Filter(func(any) bool { return true }),
+				"Map":        l.Map(func(_ int, x any) any { return x }),
+				"MapValues":  l.MapValues(func(x any) any { return x }),
+				"SubList":    l.SubList(0, n),
+				"Concat":     l.Concat(at.NewList()),
+				"FilterInts": l.FilterInts(func(int) bool { return true }),
+			}
+			for name, res := range results {
+				if res == l {
+					m.fail("%s returned its receiver", name)
+					return
+				}
+				c0 := res.Count()
+				res.Add("s1").Add("s2")
+				res.Pop()
+				res.SetTF(fmt.Sprintf("#%d", res.Count()), "s3")
+				res.Insert(0, "s0").Reverse()
+				if res.Count() != c0+3 {
+					m.fail("mutations of the result of %s did not (all) reach that result: %d elements instead of %d", name, res.Count(), c0+3)
+					return
+				}
+				if canonEnv(m.vars, nil) != before {
+					m.fail("mutating the result of %s changed a live container", name)
+					return
+				}
+			}
+			sl := l.Slice()
+			for i := range sl {
+				sl[i] = "overwritten"
+			}
+			if canonEnv(m.vars, nil) != before {
+				m.fail("writing into the slice returned by Slice changed a live container")
+				return
+			}
+		}
+		for _, r := range p.objRegs() {
+			o := m.object(r)
+			lists := map[string]at.List{"Keys": o.Keys(), "Values": o.Values()}
+			for name, res := range lists {
+				c0 := res.Count()
+				res.Add("s1").Add("s2")
+				res.Pop()
+				if res.Count() != c0+1 || canonEnv(m.vars, nil) != before {
+					m.fail("mutating the result of %s changed a live container or missed the result", name)
+					return
+				}
+			}
+			objs := map[string]at.Object{
+				"Map":       o.Map(func(_ string, x any) any { return x }),
+				"MapValues": o.MapValues(func(x any) any { return x }),
+				"Merge":     o.Merge(at.NewObject()),
+				"Pluck":     o.Pluck(),
+			}
+			for name, res := range objs {
+				if res == o {
+					m.fail("Object.%s returned its receiver", name)
+					return
+				}
+				c0 := res.Count()
+				res.Set("\x00s1", 1).Set("\x00s2", 2)
+				res.SetTF(".\x00s3", 3)
+				res.Unset("\x00s1")
+				if res.Count() != c0+2 || canonEnv(m.vars, nil) != before {
+					m.fail("mutating the result of Object.%s changed a live container or missed the result", name)
+					return
+				}
+			}
+			d := o.Dict()
+			for k := range d {
+				d[k] = "overwritten"
+			}
+			d["\x00new"] = 1
+			if canonEnv(m.vars, nil) != before {
+				m.fail("writing into the map returned by Dict changed a live container")
+				return
+			}
+		}
+	}) {
+		m.fail("deriving a view from a live container and mutating the view panicked")
+	}
+}
+
 func genHeap(prof string) genFunc {
 	return func(r *R, n int, tier string, out *Out) {
 		for i := 0; i < n; i++ {
 			p := heapProgram(r, prof)
 			if prof == "C10" && i == 0 {
 				p = k1Witness(r)
+			}
+			if prof == "C09" && !p.broken {
+				p.viewsOwnStorage()
 			}
 			ops := make([]string, len(p.ops))
 			for j, o := range p.ops {
